@@ -776,6 +776,10 @@ func (em *emitter) emitSelect(selectNode *ast.Select) {
 	em.fb.enterStack()
 
 	chs := make([]int8, len(selectNode.Cases))
+	// sent holds, for every send case, the register of the value to send:
+	// the values of all the cases are evaluated before the select is
+	// executed, so every send case has its own register.
+	sent := make([]int8, len(selectNode.Cases))
 	ok := em.fb.newRegister(reflect.Bool)
 	value := [4]int8{
 		intRegister:     em.fb.newRegister(reflect.Int),
@@ -802,7 +806,8 @@ func (em *emitter) emitSelect(selectNode *ast.Select) {
 			chType := em.typ(chExpr)
 			elemType := chType.Elem()
 			chs[i] = em.emitExpr(chExpr, chType)
-			em.emitExprR(cas.Value, elemType, value[kindToType(elemType.Kind())])
+			sent[i] = em.fb.newRegister(elemType.Kind())
+			em.emitExprR(cas.Value, elemType, sent[i])
 		}
 	}
 
@@ -825,10 +830,7 @@ func (em *emitter) emitSelect(selectNode *ast.Select) {
 			em.fb.emitCase(false, reflect.SelectRecv, value[kindToType(elemType.Kind())], chs[i])
 		case *ast.Send:
 			// ch <- v
-			chExpr := comm.Channel
-			chType := em.typ(chExpr)
-			elemType := chType.Elem()
-			em.fb.emitCase(false, reflect.SelectSend, value[kindToType(elemType.Kind())], chs[i])
+			em.fb.emitCase(false, reflect.SelectSend, sent[i], chs[i])
 		}
 		em.fb.emitGoto(casesLabel[i])
 	}
